@@ -458,6 +458,9 @@ func (w *World) resolveStep(st *Step) ([]sdk.Msg, []byte) {
 	if len(msgs) == 0 {
 		return nil, nil
 	}
+	for _, m := range msgs {
+		applyMutations(m, st)
+	}
 	if k := st.N["subst"]; k > 0 {
 		if sa := w.acct(st.N["subst_acct"]); sa != nil {
 			substAddressField(msgs[0], int(k), sa.Bech)
